@@ -28,4 +28,5 @@ def with_state_lint(prop, run):
         rels = [f for f in ANCHOR_FILES.get(prop, []) if f in check.index.modules]
         if rels:
             shared.no_new_state(check, rels)
+            shared.arg_binding(check, rels)
     return wrapped
